@@ -202,6 +202,13 @@ def http_beacon_config(draw, printable=True):
     if len(uris) < 2:
         uris = ["/aa.php", "/bb"]
     submit_uri, get_uris = uris[0], uris[1:]
+    # nested GET URIs (one a proper prefix of another, separated by '/'): still unambiguous, because placed data never
+    # starts with '/', but the decoder has to pick the longest configured prefix
+    if draw(st.booleans()) and len(get_uris) < 3:
+        base = draw(st.sampled_from(get_uris))
+        nested = base + "/" + draw(seg)
+        if all(not submit_uri.startswith(nested) and not nested.startswith(submit_uri) for _ in (0,)):
+            get_uris = get_uris + [nested] if draw(st.booleans()) else [nested] + get_uris
     verb_get = draw(st.sampled_from(["GET", "GET", "POST", "PUT", "XGET"]))
     verb_post = draw(st.sampled_from(["POST", "POST", "GET", "PUT", "XPOST"]))
     get_steps = _rename_reserved(draw(valid_client_program(kinds=("metadata",), printable=printable)))
